@@ -4,10 +4,36 @@ from __future__ import annotations
 from typing import Dict, List, Optional, Tuple
 
 from .. import terms as tm
+from ..core import _program_decorated
 from ..interp import Event, Interp, Result
 from ..lib import arg_of, fmt, is_call_to, subject_functions, sweep
 from ..progdb import AnalysisError, Function
 from ..terms import T, const
+
+def _used_as_value(prog, f) -> bool:
+    """the function's name occurs somewhere other than as the callee of a
+    call (and its own definition)"""
+    cache = prog.__dict__.setdefault("_c17_value_use", {})
+    if f.qualname not in cache:
+        import ast
+        hit = False
+        for m in prog.modules.values():
+            callees = {id(n.func) for n in ast.walk(m.tree)
+                       if isinstance(n, ast.Call)}
+            for n in ast.walk(m.tree):
+                if id(n) in callees:
+                    continue
+                if isinstance(n, ast.Name) and n.id == f.name and \
+                        isinstance(n.ctx, ast.Load) or \
+                        isinstance(n, ast.Attribute) and n.attr == f.name \
+                        and isinstance(n.ctx, ast.Load):
+                    hit = True
+                    break
+            if hit:
+                break
+        cache[f.qualname] = hit
+    return cache[f.qualname]
+
 
 EXPLANATION = """
 Static who-may-write / must-pass-through analysis over every function of evo/.
@@ -594,6 +620,17 @@ def check(ctx):
                 # a helper added later that the writers call: its sink is
                 # judged inside each caller, where it was looked through
                 continue
+            if q not in KNOWN_FUNCTIONS and e.depth == 0 and \
+                    _used_as_value(prog, res.func) and any(
+                        x.op == "param" for x in p.walk()):
+                # a helper added later that is handed on as a value (a table
+                # of writers, a callback): the guard is wherever it is
+                # finally called, which is not followed
+                ctx.undecidable(
+                    "C17.2", e, f"{kind} in {q}, a function added later "
+                    f"that is reached as a value (table entry / argument): "
+                    f"the call that runs it is not followed")
+                continue
             if _in_new_atomic_writer(e, results, KNOWN_FUNCTIONS):
                 # the atomic settings writer re-implemented / moved to another
                 # module and looked through: the same exemption as
@@ -651,6 +688,9 @@ def check(ctx):
                f"for the path it writes was declined or never asked "
                f"(guards seen: {[fmt(a) for a in chks] or 'none'})",
                key=f"C17.2:unguarded:{q}:{kind}",
+               # a writer wrapped by a decorator of the program may be
+               # guarded in the wrapper, which is not looked through
+               evidence=not _program_decorated(res.func),
                path=fmt(p), live=fmt(e.live), own_prompt_atoms=len(own))
         ctx.ob("C17.5", e, accepted is not False,
                f"{kind} in {q} reachable when the prompt is accepted "
